@@ -349,6 +349,33 @@ func c02cases(quick bool) []*BCase {
 			{Ops: []ProbeOp{op("param", "pUrl"), op("param", "pPort"), op("param", "pUrl"), op("param", "pMulti"), ov, op("param", "pPort"), op("param", "pUrl")}, Env: c02env},
 		}})
 	}
+	// a parameter of every literal type replaced at run time, then instances created afterwards: whatever refers to the
+	// parameter (alone in an argument, a field, a call, a decorator argument, inside a longer text, through another
+	// parameter) is evaluated when the instance is created, not when the container was generated
+	{
+		cfg := c02base(false)
+		cfg.Params = append(cfg.Params, Param{"viaInt", "%pInt%"}, Param{"viaBool", "%pBool%"})
+		cfg.Services = append(cfg.Services,
+			Service{Name: "sut", Constructor: P("pk.New"), Args: []any{"%pInt%", "%pBool%", "%pFloat%", "%pNil%", "%pStr%", "%pUint%"}, Fields: []KV{{"F1", "%pInt%"}, {"F2", "%pBool%"}}, Calls: []Call{{Method: "Set1", Args: []any{"%pInt%", "%pNil%"}}, {Method: "With1", Args: []any{"%pBool%"}, Immutable: P(true)}}, Scope: P("non_shared"), Tags: []Tag{{Name: "dtag"}}},
+			Service{Name: "glued", Constructor: P("pk.New1"), Args: []any{"<%pInt%|%pBool%|%pFloat%>", "%viaInt%", "%viaBool%"}, Scope: P("non_shared")},
+			Service{Name: "shared", Constructor: P("pk.New2"), Args: []any{"%pInt%", "%pBool%"}})
+		cfg.Decorators = []Decorator{{Tag: "dtag", Decorator: "pk.Dec1", Args: []any{"%pInt%", "%pBool%"}}}
+		ovs := []ProbeOp{
+			{Op: "overrideParam", Name: "pInt", Val: &ProbeSpec{Kind: "provider", V: map[string]any{"int": 9090}}},
+			{Op: "overrideParam", Name: "pBool", Val: &ProbeSpec{Kind: "value", V: false}},
+			{Op: "overrideParam", Name: "pFloat", Val: &ProbeSpec{Kind: "value", V: 2.25}},
+			{Op: "overrideParam", Name: "pNil", Val: &ProbeSpec{Kind: "value", V: "no longer nil"}},
+			{Op: "overrideParam", Name: "pStr", Val: &ProbeSpec{Kind: "provider", V: map[string]any{"int": 5}}},
+			{Op: "overrideParam", Name: "pUint", Val: &ProbeSpec{Kind: "value", V: "one"}},
+		}
+		var s1, s2 []ProbeOp
+		s1 = append(s1, ovs...)
+		s1 = append(s1, op("get", "sut"), op("get", "glued"), op("get", "shared"), op("param", "viaInt"), op("param", "pInt"))
+		s2 = append(s2, op("get", "sut"), op("get", "shared"))
+		s2 = append(s2, ovs...)
+		s2 = append(s2, op("get", "sut"), op("get", "glued"), op("get", "shared"), op("param", "pBool"))
+		cases = append(cases, &BCase{ID: "override/every-literal-type-then-new-instances", Cfg: cfg, Sessions: []BSession{{Ops: s1, Env: c02env}, {Ops: s2, Env: c02env}}})
+	}
 	// the todo marker (and its withdrawal) arriving from a later file
 	{
 		cfg := c02base(false)
